@@ -895,6 +895,17 @@ func checkRegexHeuristicTable(c *Ctx, g *Gate, s *Summary, regexX *ssa.Function)
 		c.Fail("C05.R8", shortFn(regexX)+": pipeline", regexX.Pos(), "UNDECIDED: a stage of the heuristic does not use a constant expression / template")
 		return
 	}
+	// the chain must start at the expression as written (the parameter, or the part of it between
+	// the slashes); anything else in between was not understood and the table would judge a
+	// pipeline that is not the code's
+	{
+		prm := g.ParamExprs(regexX)[0]
+		okBody := body == prm || (body.Op == "slice" && len(body.Args) > 0 && body.Args[0] == prm)
+		if !okBody {
+			c.Fail("C05.R8", shortFn(regexX)+": pipeline", regexX.Pos(), "UNDECIDED: the text the stages are applied to is not the expression as written: "+clip(u.Show(body), 120))
+			return
+		}
+	}
 	// bail-outs: return "" under strings.Contains(<text of some stage>, <constant>)
 	type bail struct {
 		text *E
